@@ -80,7 +80,7 @@ def data_type(t):
     return 11
 
 
-def render(rng, items, natoms, snapshot, steps, exp=-15, dups=None):
+def render(rng, items, natoms, snapshot, steps, exp=-15, dups=None, srcs=None):
     """exp: timescale exponent -15..0; all times must be multiples of 10^(exp+15) fs.
     dups: when a list is given, later value-change blocks may start their time chain with the LAST time of the previous block
     (the time table then holds that time twice); under the repeated entry either no record at all (`<p>e`) or a record for
@@ -153,13 +153,45 @@ def render(rng, items, natoms, snapshot, steps, exp=-15, dups=None):
         hier.extend(bytes([254, tpe]) + name.encode() + b"\x00" + b"\x00")
         nscopes[0] += 1
 
-    def walk(its):
+    # source locators (when `srcs` is a list): path names get ids in no particular order (7, 3, 12, ...: the id is what a source
+    # stem refers to, not the position of the path name in the file); a scope may carry a declaration and / or an instantiation stem
+    path_ids = {}
+    seen_scopes = set()
+
+    def path_id(path):
+        if path not in path_ids:
+            pid = rng.choice([k for k in range(1, 40) if k not in path_ids.values()])
+            path_ids[path] = pid
+            hier.extend(bytes([252, 0, 3]) + path.encode() + b"\x00" + varint(pid))
+        return path_ids[path]
+
+    def stems(full):
+        decl = inst = None
+        if rng.random() < 0.6:
+            decl = (rng.choice(["rtl/cpu.v", "tb/top.sv", "a.vhd", "lib/x.v"]), rng.randint(1, 900))
+        if rng.random() < 0.4:
+            inst = (rng.choice(["rtl/cpu.v", "tb/top.sv", "a.vhd", "lib/x.v"]), rng.randint(1, 900))
+        for is_inst, loc in ((False, decl), (True, inst)):
+            if loc is not None:
+                pid = path_id(loc[0])
+                hier.extend(bytes([252, 0, 5 if is_inst else 4]) + varint(pid) + b"\x00" + varint(loc[1]))
+        if decl or inst:
+            f = lambda l: "-" if l is None else f"{l[0].encode().hex()}@{l[1]}"   # noqa: E731
+            srcs.append(f"{full.encode().hex()}:{f(decl)}/{f(inst)}")
+
+    def walk(its, prefix=""):
         for it in its:
             if it[0] == "S":
+                full = prefix + it[2]
+                if srcs is not None and full not in seen_scopes and rng.random() < 0.7:
+                    stems(full)
+                seen_scopes.add(full)
                 scope(it[2], SCOPE[it[1]])
-                walk(it[3])
+                walk(it[3], full + ".")
                 hier.append(255)
             elif it[0] == "V":
+                if it[3][0] in ("R", "A"):
+                    seen_scopes.add(prefix + it[2])     # records / arrays are scopes too: a later scope of that name re-opens it
                 declare(it[2], it[3], list(it[4]), it[1])
 
     walk(items)
